@@ -7,7 +7,7 @@ pat=${1:-}
 rc=0
 # work on a snapshot so that edits made while this runs do not disturb it
 SNAP=$(mktemp -d /tmp/fvc-snap.XXXXXX)
-mkdir -p "$SNAP/repo" "$SNAP/spec"; cp /repo/*.go /repo/go.mod /repo/go.sum "$SNAP/repo/"; cp "$V"/spec/*.fvs "$SNAP/spec/"; cp "$V/bin/fvc" "$SNAP/fvc"
+mkdir -p "$SNAP/repo" "$SNAP/spec"; cp /repo/*.go /repo/go.mod /repo/go.sum "$SNAP/repo/"; cp "$V"/spec/* "$SNAP/spec/"; cp "$V/bin/fvc" "$SNAP/fvc"
 export TRY_SRC="$SNAP/repo" TRY_SPEC="$SNAP/spec" TRY_FVC="$SNAP/fvc"
 trap 'rm -rf "$SNAP"' EXIT
 # short solver limits: a canary only has to show a failure; obligations that already fail under
